@@ -252,8 +252,14 @@ def Out.infos : Out → List Info
   | .single i => [i]
   | .many is => is
 
-/-! ### where a flat field's rejection is raised: path suffix, shape, foreign exceptions -/
+/-! ### where a field's rejection is raised: path suffix chain, shape, foreign exceptions
 
+Every collection field hands its own path down to its item fields (`setattr(items, "_name",
+self._name + "_<i>")`, `_key`, `_value`; a Set's items keep the Set's own name), so the path of a
+rejection inside nested collections is the top-level field name followed by one suffix per level:
+`aaa_1_1_1`, `am_1_value`, `mm_value_key`, `tt_0_1`, `stt_1` (Set[Tuple[…]]: the Set adds nothing). -/
+
+/-- one level of the path: `_<index>`, `_key`, `_value` (`none`: the level adds nothing) -/
 inductive Suffix where
   | none | idx (i : Nat) | key | val
 deriving Repr, DecidableEq, Inhabited
@@ -274,9 +280,16 @@ def Suffix.text : Suffix → Text
   | .key => ['_', 'k', 'e', 'y']
   | .val => ['_', 'v', 'a', 'l', 'u', 'e']
 
+/-- the suffix chain from the top-level field down to the rejecting position, outermost first -/
+abbrev SufPath := List Suffix
+
+def SufPath.text : SufPath → Text
+  | [] => []
+  | s :: rest => s.text ++ SufPath.text rest
+
 /-- location of a rejection inside one top-level field -/
 structure Loc where
-  suffix : Suffix := .none
+  suffix : SufPath := []
   shape : Shape := .gotFirst
   /-- exception class where it differs from the one `validate` (Sem/Validate.lean) reports:
       since /repo 9c7ef9a `Enum._validate` no longer hashes the value, so an unhashable value is a
@@ -293,6 +306,8 @@ def locScalar (f : FieldDecl) (v : PyVal) : Loc :=
   | .float _ => (match v with | .int _ | .float _ => {} | _ => { shape := .gotLast })
   | .boolean => { shape := .gotLast }
   | .enumCls _ _ => { cls := some .valueErr }
+  -- ClassReference (`TypedField`): `Expected <Structure: …>; Got <v>`
+  | .struct _ _ _ => { shape := .gotLast }
   | _ => {}
 
 def isOk {α} : R α → Bool
@@ -311,7 +326,8 @@ def firstBadZip (O : Oracles) : Nat → List FieldDecl → List PyVal → Option
   | i, f :: fs, x :: xs =>
     if isOk (validate O f x) then firstBadZip O (i + 1) fs xs else some (i, f, x)
 
-def withSuffix (s : Suffix) (l : Loc) : Loc := { l with suffix := s }
+/-- one level further out: the level's own suffix goes in front -/
+def withSuffix (s : Suffix) (l : Loc) : Loc := { l with suffix := s :: l.suffix }
 
 /-- Array / Deque / Tuple: type → uniqueItems → size → length rule → elements → uniqueItems -/
 def locSeqLike (xs? : Option (List PyVal)) (uniq : Bool) (sz : SizeOpts) (pre : List PyVal → Bool)
@@ -326,61 +342,90 @@ def locSeqLike (xs? : Option (List PyVal)) (uniq : Bool) (sz : SizeOpts) (pre : 
       | some l => l
       | none => {}
 
-def badOf (O : Oracles) (f : FieldDecl) (xs : List PyVal) : Option Loc :=
-  (firstBad O f 0 xs).map fun ix => withSuffix (.idx ix.1) (locScalar f ix.2)
-
-def badZip (O : Oracles) (fs : List FieldDecl) (xs : List PyVal) : Option Loc :=
-  (firstBadZip O 0 fs xs).map fun ifx => withSuffix (.idx ifx.1) (locScalar ifx.2.1 ifx.2.2)
+/-- homogeneous items: the first rejected element `i`, located by the item field under `_<i>` -/
+def badOf (O : Oracles) (f : FieldDecl) (loc : PyVal → Loc) (xs : List PyVal) : Option Loc :=
+  (firstBad O f 0 xs).map fun ix => withSuffix (.idx ix.1) (loc ix.2)
 
 def tupleElems : PyVal → Option (List PyVal)
   | .tuple xs => some xs
   | _ => none
 
-/-- Set / ImmutableSet: type → size → elements (path = the field itself) → size -/
-def locSet (O : Oracles) (item : Option FieldDecl) (sz : SizeOpts) (v : PyVal) : Loc :=
+/-- Set / ImmutableSet: type → size → elements (the item field keeps the Set's own name: no suffix
+    for this level) → size -/
+def locSet (O : Oracles) (item : Option (FieldDecl × (PyVal → Loc))) (sz : SizeOpts) (v : PyVal) : Loc :=
   match v with
   | .set _ xs =>
     if !sizeOk sz xs.length then { shape := .gotLast }
-    else match item.bind fun f => (firstBad O f 0 xs).map fun ix => locScalar f ix.2 with
+    else match item.bind fun fl => (firstBad O fl.1 0 xs).map fun ix => fl.2 ix.2 with
       | some l => l
       | none => { shape := .gotLast }
   | _ => {}
 
 /-- first entry whose key (then value) is rejected -/
-def firstBadEntry (O : Oracles) (kf vf : FieldDecl) : List (PyVal × PyVal) → Option Loc
+def firstBadEntry (O : Oracles) (kf vf : FieldDecl) (lk lv : PyVal → Loc) :
+    List (PyVal × PyVal) → Option Loc
   | [] => none
   | (k, x) :: rest =>
-    if !isOk (validate O kf k) then some (withSuffix .key (locScalar kf k))
-    else if !isOk (validate O vf x) then some (withSuffix .val (locScalar vf x))
-    else firstBadEntry O kf vf rest
+    if !isOk (validate O kf k) then some (withSuffix .key (lk k))
+    else if !isOk (validate O vf x) then some (withSuffix .val (lv x))
+    else firstBadEntry O kf vf lk lv rest
 
 /-- Map: type (`Expected a dict`, no value) → size → key / value per entry → size -/
-def locMap (O : Oracles) (kv : Option (FieldDecl × FieldDecl)) (sz : SizeOpts) (v : PyVal) : Loc :=
+def locMap (O : Oracles) (kv : Option (List (PyVal × PyVal) → Option Loc)) (sz : SizeOpts) (v : PyVal) : Loc :=
   match v with
   | .dict kvs =>
     if !sizeOk sz kvs.length then { shape := .gotLast }
-    else match kv.bind fun p => firstBadEntry O p.1 p.2 kvs with
+    else match kv.bind fun g => g kvs with
       | some l => l
       | none => { shape := .gotLast }
   | _ => { shape := .plain }
 
-/-- where the rejection of `v` by the flat field `f` is raised (meaningful when `validate` fails) -/
-def locate (O : Oracles) (f : FieldDecl) (v : PyVal) : Loc :=
-  match f with
-  | .seqAny k sz => locSeqLike (seqElems k v) sz.uniq sz (fun _ => true) (fun _ => none)
-  | .seqOf k item sz => locSeqLike (seqElems k v) sz.uniq sz (fun _ => true) (badOf O item)
-  | .seqPos k fs addl sz =>
+mutual
+/-- where the rejection of `v` by the field `f` is raised (meaningful when `validate` fails): the
+    suffix chain through nested collections down to the first rejecting position, and the shape of
+    the message raised there.  Structural recursion over the declaration tree, any depth. -/
+def locate (O : Oracles) : FieldDecl → PyVal → Loc
+  | .seqAny k sz, v => locSeqLike (seqElems k v) sz.uniq sz (fun _ => true) (fun _ => none)
+  | .seqOf k item sz, v =>
+    locSeqLike (seqElems k v) sz.uniq sz (fun _ => true) (badOf O item (locate O item))
+  | .seqPos k fs addl sz, v =>
     locSeqLike (seqElems k v) sz.uniq sz
       (fun xs => decide (fs.length ≤ xs.length) && (addl || decide (xs.length ≤ fs.length)))
-      (badZip O fs)
-  | .setAny _ sz => locSet O none sz v
-  | .setOf _ item sz => locSet O (some item) sz v
-  | .tupleOf item uniq => locSeqLike (tupleElems v) uniq {} (fun _ => true) (badOf O item)
-  | .tuplePos fs uniq =>
-    locSeqLike (tupleElems v) uniq {} (fun xs => fs.length == xs.length) (badZip O fs)
-  | .mapAny sz => locMap O none sz v
-  | .mapOf kf vf sz => locMap O (some (kf, vf)) sz v
-  | f => locScalar f v
+      (locateZip O 0 fs)
+  | .setAny _ sz, v => locSet O none sz v
+  | .setOf _ item sz, v => locSet O (some (item, locate O item)) sz v
+  | .tupleOf item uniq, v =>
+    locSeqLike (tupleElems v) uniq {} (fun _ => true) (badOf O item (locate O item))
+  | .tuplePos fs uniq, v =>
+    locSeqLike (tupleElems v) uniq {} (fun xs => fs.length == xs.length) (locateZip O 0 fs)
+  | .mapAny sz, v => locMap O none sz v
+  | .mapOf kf vf sz, v =>
+    locMap O (some (firstBadEntry O kf vf (locate O kf) (locate O vf))) sz v
+  | .number o, v => locScalar (.number o) v
+  | .integer o, v => locScalar (.integer o) v
+  | .float o, v => locScalar (.float o) v
+  | .string a b c, v => locScalar (.string a b c) v
+  | .boolean, v => locScalar .boolean v
+  | .enumLit vs, v => locScalar (.enumLit vs) v
+  | .enumCls c ns, v => locScalar (.enumCls c ns) v
+  | .struct _ _ _, _ => { shape := .gotLast }
+  | .anyOf _, _ => {}
+  | .oneOf _, _ => {}
+  | .allOf _, _ => {}
+  | .notF _, _ => {}
+  | .noneF, _ => {}
+  | .anything, _ => {}
+termination_by structural f _ => f
+
+/-- positional items: the first rejected element `i`, located by ITS field under `_<i>` -/
+def locateZip (O : Oracles) : Nat → List FieldDecl → List PyVal → Option Loc
+  | _, [], _ => none
+  | _, _ :: _, [] => none
+  | i, f :: fs, x :: xs =>
+    if isOk (validate O f x) then locateZip O (i + 1) fs xs
+    else some (withSuffix (.idx i) (locate O f x))
+termination_by structural _ fs _ => fs
+end
 
 def isScalarDecl : FieldDecl → Bool
   | .number _ | .integer _ | .float _ | .string _ _ _ | .boolean | .enumLit _ | .enumCls _ _ => true
@@ -393,6 +438,27 @@ def isFlatDecl : FieldDecl → Bool
   | .seqPos _ fs _ _ | .tuplePos fs _ => fs.all isScalarDecl
   | .mapOf kf vf _ => isScalarDecl kf && isScalarDecl vf
   | f => isScalarDecl f
+
+mutual
+/-- the extended domain of the path model: scalars, class references (`ClassReference`, not the
+    inline `StructureReference`) and collections of these at ANY nesting depth -/
+def isPathDecl : FieldDecl → Bool
+  | .number _ | .integer _ | .float _ | .string _ _ _ | .boolean | .enumLit _ | .enumCls _ _ => true
+  | .seqAny _ _ | .setAny _ _ | .mapAny _ => true
+  | .seqOf _ item _ => isPathDecl item
+  | .setOf _ item _ => isPathDecl item
+  | .tupleOf item _ => isPathDecl item
+  | .seqPos _ fs _ _ => allPathDecl fs
+  | .tuplePos fs _ => allPathDecl fs
+  | .mapOf kf vf _ => isPathDecl kf && isPathDecl vf
+  | .struct c _ _ => !c.inline
+  | _ => false
+termination_by structural f => f
+def allPathDecl : List FieldDecl → Bool
+  | [] => true
+  | f :: fs => isPathDecl f && allPathDecl fs
+termination_by structural fs => fs
+end
 
 /-! ### `Structure.__init__` for a flat class: which messages are raised -/
 
@@ -691,8 +757,8 @@ def P1Site.namesOwnField (s : P1Site) : Bool :=
 
 
 /-- the field text `p` names the top-level field `top` of class `cls?`:
-    `[<Class>.]<top>[_<index> | _key | _value]` -/
+    `[<Class>.]<top>(_<index> | _key | _value)*` (one suffix per nesting level) -/
 def namesField (cls : Option Text) (top : String) (p : Text) : Prop :=
-  ∃ suf : Suffix, p = withClass cls (top.toList ++ suf.text)
+  ∃ suf : SufPath, p = withClass cls (top.toList ++ suf.text)
 
 end Typedpy.Err
